@@ -480,6 +480,28 @@ pub fn t8(prop: &str, seed: u64) -> RunDesc {
         r.push(o(K::LoadW, WROOT0, 0, 1, 0));
     }
     r.extend([o(K::DerefSnap, 0, 0, 0, 0), o(K::Signal, 1, 0, 0, 0)]);
+    // one run in six: 130-270 nested guards come and go under the outer one (whatever the library
+    // does every so many pins must not touch the outer critical section)
+    if rng.chance(0.17) {
+        for _ in 0..130 + rng.below(141) {
+            r.extend([o(K::Pin, 1, 0, 0, 0), o(K::Unpin, 1, 0, 0, 0)]);
+        }
+        r.push(o(K::DerefSnap, 0, 0, 0, 0));
+        // ... with garbage around that expired before the reader pinned and is still queued
+        let mut g = Vec::new();
+        for _ in 0..4 + rng.below(5) {
+            g.extend([o(K::New, 0, NONE_SLOT, 0, 0), o(K::DropRc, 0, 0, 0, 0)]);
+        }
+        g.extend([o(K::Pin, 0, 0, 0, 0), o(K::Flush, 0, 0, 0, 0), o(K::TryAdvance, 0, 0, 0, 0), o(K::Unpin, 0, 0, 0, 0)]);
+        for _ in 0..4 {
+            g.extend([o(K::Pin, 0, 0, 0, 0), o(K::TryAdvance, 0, 0, 0, 0), o(K::Unpin, 0, 0, 0, 0)]);
+        }
+        for t in d.threads.iter_mut() {
+            if t.name == "age" {
+                t.ops = g.clone();
+            }
+        }
+    }
     let k = 3 + rng.below(6);
     for i in 0..k {
         match rng.below(6) {
@@ -942,6 +964,38 @@ pub fn t14(prop: &str, seed: u64) -> RunDesc {
     w.push(o(K::Signal, 5, 0, 0, 0));
     d.threads.push(thread(4, "drop-last-weak-and-collect", w));
     d.params = J::obj().set("template", "T14 WeakSnapshot outlives the last Weak and the object");
+    d
+}
+
+/// T15: a thread-local destructor that runs after the handle is gone produces garbage and then
+/// relies on its own pin/flush/unpin rounds to get it reclaimed. Every round runs on a temporary
+/// participant that is registered and removed again, and nobody else is around: the clock has
+/// to move all the same (C20: "running collections work from any point of a thread's life").
+pub fn t15(prop: &str, seed: u64) -> RunDesc {
+    let mut rng = Rng::new(seed);
+    let mut d = base(&mut rng, prop, "dir-t15", seed, 2);
+    d.cfg.stall = None;
+    d.cfg.dtor_api = 0;
+    let k = 1 + rng.below(4) as u32;
+    let mut x = thread(1, "exiting", vec![o(K::Pin, 0, 0, 0, 0), o(K::Unpin, 0, 0, 0, 0)]);
+    x.tls_mode = 1;
+    x.exit_mode = 0;
+    let mut tl = vec![o(K::Pin, 0, 0, 0, 0)];
+    for _ in 0..k {
+        tl.push(o(K::Defer, 0, rng.below(10) as u32, 0, 0));
+    }
+    tl.extend([o(K::Flush, 0, 0, 0, 0), o(K::Unpin, 0, 0, 0, 0)]);
+    for _ in 0..10 + rng.below(8) {
+        tl.extend([o(K::Pin, 0, 0, 0, 0), o(K::Flush, 0, 0, 0, 0), o(K::Unpin, 0, 0, 0, 0)]);
+    }
+    tl.push(o(K::CheckDeferred, k, 0, 0, 0));
+    x.tls_ops = tl;
+    d.threads.push(x);
+    // optionally a second thread that came and went before (its record is still in the registry)
+    if rng.chance(0.5) {
+        d.threads.push(thread(0, "earlier", vec![o(K::Pin, 0, 0, 0, 0), o(K::Unpin, 0, 0, 0, 0)]));
+    }
+    d.params = J::obj().set("template", "T15 a thread-local destructor collects its own garbage alone").set("functions", k);
     d
 }
 
